@@ -230,6 +230,13 @@ class Gen:
         self.total = o.get("clients", rnd.choice([1, 2, 4, 8, 15, 40]))
         self.maxconc = o.get("conc", rnd.choice([1, 2, 3, 5, 8]))
         ids = rnd.sample(range(0, 60), rnd.randint(2, 6))
+        if "conc" not in o and rnd.random() < 0.06:
+            # a crowd: many requests live at once (table depth, vector growth, counts crossing powers of two)
+            ids = rnd.sample(range(0, 300), rnd.choice([17, 33, 65, 70]))
+            self.maxconc = len(ids) - rnd.choice([0, 1, 3])
+            self.total = max(self.total, len(ids) + rnd.choice([0, 5, 40]))
+            self.max_steps = max(self.max_steps, 250)
+            self.crowd = True
         self.faults = set(f for f in FAULT_KINDS if rnd.random() < 0.5) if not o.get("no_faults") else set()
         if "faults" in o:
             self.faults = set(o["faults"])
@@ -376,7 +383,11 @@ class Gen:
             return None
         acts = []
         if self.started < self.total and len(w.live) < self.maxconc:
-            acts.append((4.0, "new"))
+            # in crowd mode announcements keep pace with the crowd until it has gathered once
+            boost = 3.0 * len(w.live) if getattr(self, "crowd", False) and not getattr(self, "crowd_full", False) else 0.0
+            acts.append((4.0 + boost, "new"))
+        elif getattr(self, "crowd", False):
+            self.crowd_full = True
         if "cli_reannounce_live" in self.faults and w.live and self.started < self.total:
             acts.append((0.3, "renew"))
         for cid in sorted(w.live):
@@ -439,6 +450,8 @@ class Gen:
                 if not free:
                     return None
                 cid = r.choice(free)
+                if getattr(self, "crowd", False) and len(w.live) in (15, 16, 31, 32, 63, 64):
+                    self.fire("crowd_%d_live" % (len(w.live) + 1))
             else:
                 cid = r.choice(sorted(w.live))
                 self.fire("cli_reannounce_live")
